@@ -347,7 +347,7 @@ func (w *World) Apply(a Action) *StepResult {
 	// provider tx
 	msgs, signer, err := w.BuildMsgs(ap)
 	if err != nil {
-		panic(sim.HarnessError{Msg: "build msgs: " + err.Error()})
+		return &StepResult{Skipped: "cannot build message: " + err.Error()}
 	}
 	if _, ok := w.P.Accounts[signer]; !ok {
 		return &StepResult{Skipped: "unknown signer " + signer}
